@@ -39,7 +39,7 @@ static uint32_t coin_source(void*) { return (uint32_t)(g_coin->next() >> 63); }
 template<class T, class K> struct Driver {
   using DS = density_sketch<T, K>;
   static const int NS = 3, NB = 4;
-  vt::Rng& g; int serde_pct; int hdr_pct = 70; bool far = false; bool gauss; K kernel; double R; long S;
+  vt::Rng& g; int serde_pct; int hdr_pct = 70; int bigk_pct = 0; bool far = false; bool gauss; K kernel; double R; long S;
   std::vector<std::vector<long>> pts;              // pool, id = index + 1
   std::map<std::vector<long>, int> idof;
   double scale = 1;                                // Gaussian: coordinates are pool integers * scale
@@ -85,7 +85,8 @@ template<class T, class K> struct Driver {
 
   void mk(int i, uint32_t dim) {
     static const int KS[] = {2, 2, 3, 4, 5, 8, 12, 16};
-    int k = far ? KS[g.below(3)] : KS[g.below(8)];   // far segments: small k, so that whole levels of mutually far points get compacted
+    int k = far ? KS[g.below(3)] : KS[g.below(8)];
+    if (!far && (int)g.below(100) < bigk_pct) k = (int[]){24, 32, 48, 64}[g.below(4)];   // thorough tier   // far segments: small k, so that whole levels of mutually far points get compacted
     sk[i].reset(new DS((uint16_t)k, dim, kernel)); rst[i] = false;
     Ev e("New"); e.i("id", i); post(e, *sk[i], false); e.emit();
   }
@@ -235,6 +236,7 @@ int main(int argc, char** argv) {
   int serde_pct = (int)vt::argl(argc, argv, "--serde", 3);
   int far_pct = (int)vt::argl(argc, argv, "--far", 10);
   int hdr_pct = (int)vt::argl(argc, argv, "--hdr", 70);   // share of Ser events that request a header > 0
+  int bigk_pct = (int)vt::argl(argc, argv, "--bigk", 0);
   vt::open_out(vt::arg(argc, argv, "--out", "/dev/stdout"));
   vt::Rng g(seed), coin(seed ^ 0x5bd1e995ULL);
   g_coin = &coin;
@@ -242,10 +244,10 @@ int main(int argc, char** argv) {
   for (long seg = 0; seg < segments; seg++) {
     alarm(30);    // watchdog: a sketch that loops forever is a finding (the recorder dies by SIGALRM), not a hung check
     int kind = (int)g.below(10);
-    if (kind < 4) { Driver<double, tent_kernel<double>> d(g, serde_pct, false); d.hdr_pct = hdr_pct; d.segment(seg, events, far_pct); }
-    else if (kind < 8) { Driver<float, tent_kernel<float>> d(g, serde_pct, false); d.hdr_pct = hdr_pct; d.segment(seg, events, far_pct); }
-    else if (kind < 9) { Driver<double, gaussian_kernel<double>> d(g, serde_pct, true); d.hdr_pct = hdr_pct; d.segment(seg, events, far_pct); }
-    else { Driver<float, gaussian_kernel<float>> d(g, serde_pct, true); d.hdr_pct = hdr_pct; d.segment(seg, events, far_pct); }
+    if (kind < 4) { Driver<double, tent_kernel<double>> d(g, serde_pct, false); d.hdr_pct = hdr_pct; d.bigk_pct = bigk_pct; d.segment(seg, events, far_pct); }
+    else if (kind < 8) { Driver<float, tent_kernel<float>> d(g, serde_pct, false); d.hdr_pct = hdr_pct; d.bigk_pct = bigk_pct; d.segment(seg, events, far_pct); }
+    else if (kind < 9) { Driver<double, gaussian_kernel<double>> d(g, serde_pct, true); d.hdr_pct = hdr_pct; d.bigk_pct = bigk_pct; d.segment(seg, events, far_pct); }
+    else { Driver<float, gaussian_kernel<float>> d(g, serde_pct, true); d.hdr_pct = hdr_pct; d.bigk_pct = bigk_pct; d.segment(seg, events, far_pct); }
   }
   vt::close_out();
   fprintf(stderr, "density_rec: %ld events (%llu coin flips)\n", vt::g_events, (unsigned long long)random_utils::random_bit.calls);
